@@ -70,7 +70,7 @@ class to_seed_validate:
     result_is = to_seed.__dict__['result_is']
 
     def build(self, words, password):
-        return (lambda: Mnemonic().to_seed(words, password, validate=True)), [], {}
+        return (lambda: Mnemonic(Mnemonic.detect_language(words)).to_seed(words, password, validate=True)), [], {}
 
     def sample(rng):
         lang = rng.choice(['spanish', 'french', 'japanese', 'english', 'italian'])
